@@ -914,6 +914,12 @@ func (g *coreGen) probeStmts() []any {
 	// bound names are values; a literal-only match evaluated with descending subjects
 	out = append(out, m(cn("expr", "e", m(cn("match", "e", vr("r1"), "cases", []any{m(cn("case", "pats", []any{m(cn("parr", "items", []any{m(cn("pid", "n", "q1")), m(cn("pid", "n", "q2")), m(cn("pid", "n", "q3"))}))},
 		"bk", "block", "b", m(cn("block", "b", []any{ex(cn("asg", "n", "q1", "op", "=", "e", num(40))), ex(cn("inc", "n", "q2", "op", "++", "post", true)), pr(str("q"), vr("q1"), vr("q2"), vr("r1"))}))))})))))
+	// a variable first created in an arm selected by literals only (no name is bound) is gone after the arm, too
+	out = append(out, ex(cn("match", "e", num(1), "cases", []any{m(cn("case", "pats", []any{m(cn("plit", "v", num(1)))}, "bk", "block", "b",
+		m(cn("block", "b", []any{ex(cn("asg", "n", "pnv", "op", "=", "e", num(5))), pr(str("in"), vr("pnv"))}))))})))
+	out = append(out, ex(cn("match", "e", m(cn("arr", "items", []any{num(1), num(2)})), "cases", []any{m(cn("case", "pats", []any{m(cn("parr", "items", []any{m(cn("plit", "v", num(1))), m(cn("plit", "v", num(2)))}))}, "bk", "block", "b",
+		m(cn("block", "b", []any{ex(cn("asg", "n", "pnw", "op", "=", "e", num(6)))}))))})))
+	out = append(out, pr(str("pnv"), m(cn("is", "e", vr("pnv"), "ty", "unknown")), m(cn("is", "e", vr("pnw"), "ty", "unknown"))))
 	ov := g.overlapMatch()
 	ov["e"] = m(cn("bin", "op", "-", "l", num(3), "r", vr("pz2")))
 	out = append(out, m(cn("for", "init", m(cn("asg", "n", "pz2", "op", "=", "e", num(0))), "c", m(cn("bin", "op", "<", "l", vr("pz2"), "r", num(4))),
